@@ -347,6 +347,13 @@ pub fn bg_strategy(k: usize, wild: bool, zeros: bool) -> BoxedStrategy<BgSpec> {
     prop_oneof![6 => Just(BgSpec::Uniform), 6 => counts, 6 => dy, 1 => tiny].boxed()
 }
 
+/// Background paired with scores that are written down directly (`ScoringMatrix::new(background, scores)` takes any
+/// pair): one time in four a symbol that never occurs in the background still has finite scores, as when scores
+/// come from a file and the background is estimated from data that lack one residue.
+fn declared_bg(k: usize) -> BoxedStrategy<BgSpec> {
+    prop_oneof![3 => bg_strategy(k, true, false), 1 => bg_strategy(k, true, true)].boxed()
+}
+
 // --- scoring matrices --------------------------------------------------------
 
 #[derive(Clone, Debug, Serialize, Deserialize, PartialEq)]
@@ -457,7 +464,7 @@ pub fn mat_strategy(abc: Abc, width: BoxedStrategy<usize>, reg: Regimes) -> Boxe
             if reg.finite {
                 alts.push((
                     3,
-                    (proptest::collection::vec(proptest::collection::vec(-32.0f32..=32.0, k), m), bg_strategy(k, true, false))
+                    (proptest::collection::vec(proptest::collection::vec(-32.0f32..=32.0, k), m), declared_bg(k))
                         .prop_map(|(rows, bg)| MatSpec {
                             rows: rows.into_iter().map(|r| r.into_iter().map(Fl).collect()).collect(),
                             bg,
@@ -469,7 +476,7 @@ pub fn mat_strategy(abc: Abc, width: BoxedStrategy<usize>, reg: Regimes) -> Boxe
             if reg.small_int {
                 alts.push((
                     2,
-                    (proptest::collection::vec(proptest::collection::vec(-8i32..=8, k), m), bg_strategy(k, true, false))
+                    (proptest::collection::vec(proptest::collection::vec(-8i32..=8, k), m), declared_bg(k))
                         .prop_map(|(rows, bg)| MatSpec {
                             rows: rows.into_iter().map(|r| r.into_iter().map(|x| Fl(x as f32)).collect()).collect(),
                             bg,
